@@ -473,6 +473,8 @@ def shape_stats(d) -> Dict[str, int]:
     refs = {(c["name"], f["ep"][1]) for c in d["classes"] for f in c["fields"] if f["ep"][0] == "c"}
     if any((b, a) in refs and a != b for (a, b) in refs):
         inc("mutual")
+    if features(d)["K_nobuiltin"]:
+        inc("no_builtin_scalar")
     return st
 
 
@@ -543,11 +545,7 @@ def gen_model(rng, idx: int, allow_k: bool) -> dict:
         classes.append({"name": n, "base": base[n], "fields": fs})
     d = {"module": f"c06m_{idx}", "enums": enums, "classes": classes}
     if not allow_k:
-        # keep the model inside F: a builtin scalar somewhere, no x/x_id aliasing
-        if features(dict(d, order=names))["K_nobuiltin"]:
-            c = rng.choice(classes)
-            nm = next(x for x in ["anchor", "anchor2"] if x not in [f["name"] for f in c["fields"]])
-            c["fields"].insert(rng.randint(0, len(c["fields"])), {"name": nm, "shape": "plain", "ep": ["b", rng.choice(["int", "str", "float", "bool"])], "default": True})
+        # keep the model inside F: no x/x_id aliasing (models without any builtin scalar are inside F since b804898)
         for c in classes:
             fnames = {f["name"] for f in c["fields"]}
             c["fields"] = [f for f in c["fields"] if not (f["ep"][0] == "c" and f["shape"] in ("plain", "opt") and f["name"] + "_id" in fnames)]
@@ -641,7 +639,7 @@ def classify(impl, model, spec) -> int:
     return 2 if impl == model else 3
 
 
-KCLASS_ORDER = ["K_selfcoll", "K_reserved", "K_pkname", "K_casefold", "K_assocname", "K_nobuiltin", "K_fkalias", "K_discname"]
+KCLASS_ORDER = ["K_selfcoll", "K_reserved", "K_pkname", "K_casefold", "K_assocname", "K_fkalias", "K_discname"]   # K_nobuiltin: repaired (b804898)
 
 
 MAX_REPLAYS = 6
@@ -777,6 +775,9 @@ def run(tier: str, seed: int, replay=None) -> int:
         judge_determinism(rep, recs[0])
         rep.count(case_key(recs[0]["d"]), True)
         rep.note(f"replay: {lab}")
+        for f in findings:
+            if f.kind == "open" and lab == "known:" + f.cls:
+                rep.known(f)
         return rep.finish()
     # 1. corpus (witnesses of known findings and of past disagreements)
     corpus = load_corpus()
